@@ -129,6 +129,15 @@ def list_templates(tier):
         for op in (And, Or, Xor):
             yield [(S("v"), e1), (t, op(S("v"), a)), (S("v"), t), (r, op(S("v"), b))]
             yield [(S("v"), a), (t, ITE(c, e1, S("v"))), (S("v"), t), (t, ITE(c, S("v"), b)), (S("v"), t), (r, S("v"))]
+    # the same shapes with intermediates whose names merely *contain* the return prefix or look like temporaries:
+    # how a step treats a symbol must depend on its role, not on a substring of its name
+    for n0, n1 in (("x_ret", "y_ret.1"), ("ret", "my_ret"), ("_x", "t__t")):
+        y0, y1 = S(n0), S(n1)
+        for e1 in E1[:8]:
+            for op in (And, Or, Xor):
+                yield [(y0, e1), (r, op(y0, a))]
+                yield [(y0, e1), (r0, Xor(And(y0, c), d)), (r1, Xor(And(y0, c), a))]
+                yield [(y0, e1), (y1, op(y0, c)), (r0, op(y1, a)), (r1, op(y0, y1))]
     # several return symbols, some trivial
     for e1 in E1b:
         for e2 in E1b[::3]:
